@@ -28,6 +28,8 @@ TrSendSkip  == IsEvent("ASendSkip") /\ SendSkipCore(E.sec)
 TrForget    == IsEvent("AForget") /\ ForgetCore(E.sec, E.why)
 TrHistApp   == IsEvent("AHistAppend") /\ HistAppendCore(E.sec, E.data)
 TrPop       == IsEvent("APop") /\ PopCore(E.sec)
+TrRead      == IsEvent("ARead") /\ ReadCore(E.sec)
+TrAgRestart == IsEvent("AgentRestart") /\ AgentRestartCore
 
 TrFile == /\ IsEvent("GFile")
           /\ LET d == Filing(RepOf[E.inst], E.sec, E.historic, E.oldest, E.newest, E.hw) IN
@@ -54,7 +56,7 @@ TrInfo == (IsEvent("AggStart") \/ IsEvent("AggStop") \/ IsEvent("Fault") \/ IsEv
 TrQuiesce == IsEvent("Quiesce") /\ (\A s \in Secs : Settled(s)) /\ Nop
 
 TrNext == \/ TrMark \/ TrToSenders \/ TrPut \/ TrSendStart \/ TrSendRes \/ TrSendSkip \/ TrForget
-          \/ TrHistApp \/ TrPop \/ TrFile \/ TrReg \/ TrReject \/ TrHijack \/ TrTick \/ TrInsertBegin
+          \/ TrHistApp \/ TrPop \/ TrRead \/ TrAgRestart \/ TrFile \/ TrReg \/ TrReject \/ TrHijack \/ TrTick \/ TrInsertBegin
           \/ TrStored \/ TrInsertEnd \/ TrReply \/ TrInfo \/ TrQuiesce
 TraceSpec == TrInit /\ [][TrNext]_tvars
 
